@@ -273,6 +273,16 @@ func NewPool(kt string, code uint, variant string) *Pool {
 				dea(id, b.reveal, m, noAuth, kindID, b.id)
 			}
 		}
+		// positive control: the same hostile content, properly signed by the committed key. It must change the state
+		// when anchored first - otherwise the forged variants below would be refused for an unrelated reason.
+		switch b.typ {
+		case "update":
+			upd("E("+b.id+")", b.reveal, c("a1"), svc("evil"), nil, nil, "control", b.id)
+		case "recover":
+			rec("E("+b.id+")", b.reveal, c("a1"), c("w0"), svc("evil"), nil, nil, "control", b.id)
+		case "deactivate":
+			dea("E("+b.id+")", b.reveal, nil, nil, "control", b.id)
+		}
 		forged("a", func(s *OpSpec) { s.JWS = &JWSOpts{SigMut: func([]byte) []byte { return otherSig(s.SignKey) }} }, nil)
 		forged("b", func(s *OpSpec) {
 			s.JWS = &JWSOpts{PayloadMut: func(pl []byte) []byte {
